@@ -36,7 +36,7 @@ func c13Describe(cs *cvxCase) string {
 	} else {
 		s += "http://"
 	}
-	s += "<" + cs.C.RHost + " host>" + cvxJoin(cs.C.Path)
+	s += "<" + cs.C.RHost + " host " + cs.C.HostLabel + ">" + cvxJoin(cs.C.Path)
 	if len(cs.C.Query) > 0 {
 		s += "?" + cvxQuery(cs.C.Query)
 	}
@@ -155,10 +155,54 @@ func c13SplitURL(s string) (scheme, host, path, query string, hasQuery bool) {
 	return
 }
 
+// c13History sends the requests of a history one after the other through the same route; every one of them
+// must get the answer that follows from that request alone.
+func c13History(w *cvxWorld, j *cvxJob) bool {
+	cs := j.cs
+	if len(cs.Answers) != len(cs.C.Hist) {
+		w.errorf("case %d: history of %d requests with %d expected answers", j.id, len(cs.C.Hist), len(cs.Answers))
+		return false
+	}
+	for k, rq := range cs.C.Hist {
+		step := *cs
+		step.C.Hist, step.Answers = nil, nil
+		step.C.Path, step.C.Query, step.C.HostLabel = rq.Path, rq.Query, rq.Host
+		step.Out.Loc = cs.Answers[k]
+		step.parent, step.step = cs, k+1
+		c13Exec(w, &cvxJob{cs: &step, id: j.id + int64(k+1)<<34, raw: j.raw})
+	}
+	return true
+}
+
+// c13EarlierTwin: was the same path and query asked before under another host?
+func c13EarlierTwin(cs *cvxCase) bool {
+	p := cs.parent
+	if p == nil {
+		return false
+	}
+	for k := 0; k < cs.step-1; k++ {
+		h := p.C.Hist[k]
+		if h.Host != cs.C.HostLabel && cvxJoin(h.Path) == cvxJoin(cs.C.Path) && cvxQuery(h.Query) == cvxQuery(cs.C.Query) {
+			return true
+		}
+	}
+	return false
+}
+
 func c13Exec(w *cvxWorld, j *cvxJob) bool {
 	cs := j.cs
+	if len(cs.C.Hist) > 0 {
+		return c13History(w, j)
+	}
 	fail := func(clause, format string, a ...any) {
-		verifx.Fail(cs, c13Features(cs, clause), "%s\n  case: %s", fmt.Sprintf(format, a...), c13Describe(cs))
+		f, reported, where := c13Features(cs, clause), cs, ""
+		if cs.parent != nil {
+			reported = cs.parent
+			f["step"] = cs.step
+			f["same_uri_asked_before_by_other_host"] = c13EarlierTwin(cs)
+			where = fmt.Sprintf(" (request %d of a history of %d through the same route)", cs.step, len(cs.parent.C.Hist))
+		}
+		verifx.Fail(reported, f, "%s%s\n  case: %s", fmt.Sprintf(format, a...), where, c13Describe(cs))
 	}
 	status, hdr := cvxAnswer(cs.Out.Resp)
 	if cs.Out.Kind == "upstream" {
